@@ -81,7 +81,7 @@ def schedule_fn(ctx: Ctx):
     sim = inner.params[0]
     want = (f"time_in_range(read_time_string({row}.get('start_time')), read_time_string({row}.get('end_time')), "
             f"datetime.utcfromtimestamp({sim}.sim_time).time())")
-    ok = len(ps) == 1 and flow.dump(ps[0].value) == want
+    ok = flow.values_match(ps, want)
     ctx.check(ok, "D1", "DU.schedule-args", "the schedule function tests (shift start, shift end, time of day of the state's sim_time) in that order", inner,
               why_bad=f"returns {flow.dump(ps[0].value)[:220] if ps else '?'}", construct="_schedule_fn:args")
     # stored under the row's schedule id
